@@ -15,6 +15,9 @@ classes were requested first or how they were combined in incremental re-parses"
      list starting at ``parse_regex_source``; candidate names resolve.
  R3  candidate filtering uses the active-class mask (``parser_class &
      parser_classes``) for block and statement candidates alike.
+ R6  ``Sourcefile.make_complete`` never skips the parse because of the file-level
+     record of requested classes (that record is not a record of what has been
+     matched inside the program units).
 Not decided: the 1st sentence (regex language vs Fortran grammar).
  R4  re-use of an already created unit is scope-local: ``ModulePattern.match`` and
      ``SubroutineFunctionPattern.match`` retrieve an existing ``Module`` /
@@ -271,8 +274,33 @@ def run(ctx):
     ctx.floor('R5', 'loops in match methods', n5, 3)
     ctx.judge('R5', 'no loop-carried self-clone in match methods', nontrivial=True)
 
+    # ---- R6 the file-level record of requested classes is no evidence of a completed match
+    ctx.rule('R6', 'Sourcefile.make_complete: no early exit depends on self._parser_classes (only the program units know what they were parsed with)')
+    SFC = m.get_class('loki/sourcefile.py', 'Sourcefile')
+    mc = SFC.function('make_complete')
+    if mc is None:
+        raise AnalysisError('Sourcefile.make_complete vanished')
+    rets = X.nodes_with_guards(mc.node, lambda x: isinstance(x, ast.Return), early=False)
+    pcl = set(X.names_assigned_from(mc.node, 'self._parser_classes'))
+    n6 = 0
+    for r, guards in rets:
+        n6 += 1
+        dep = [g for g in guards if '_parser_classes' in g or any(nm in {x.id for x in ast.walk(ast.parse(g, mode='eval')) if isinstance(x, ast.Name)} for nm in pcl)]
+        inst = f'Sourcefile.make_complete:return@{";".join(guards)[:40]}'
+        if dep:
+            ctx.violation('R6', 'Sourcefile.make_complete:skip-on-requested-classes', f'{mc.module.relpath}:{r.lineno}',
+                          f'make_complete returns early under `{dep[0]}`: the file-level `_parser_classes` only records which classes were '
+                          f'*requested* -- classes requested before a program unit existed were never matched inside it, so a later '
+                          f'make_complete(REGEX, ImportClass) is skipped and imports / typedefs are never discovered')
+        else:
+            ctx.judge('R6', inst, nontrivial=False)
+    ctx.floor('R6', 'return statements of Sourcefile.make_complete', n6, 1)
+
 
 MUTANTS = [
+    Mutant('file-level-shortcut', 'loki/sourcefile.py', "            if frontend == REGEX:\n                frontend_argnames = ['parser_classes']\n",
+           "            if frontend == REGEX:\n                frontend_argnames = ['parser_classes']\n                if self._parser_classes and (self._parser_classes | frontend_args.get('parser_classes', RegexParserClass.AllClasses)) == self._parser_classes:\n                    return\n",
+           expect=('R6', 'skip-on-requested-classes')),
     Mutant('existing-routine-recursive-lookup', 'loki/frontend/regex.py',
            "        if scope is not None and name in scope.symbol_attrs:\n            proc_type = scope.symbol_attrs[name]  # Look-up only in current scope!",
            "        if scope is not None:\n            proc_type = scope.symbol_attrs.lookup(name)", expect=('R4', 'SubroutineFunctionPattern.match')),
